@@ -40,16 +40,16 @@ let run (op_full : string) (a : string array) : string =
   | "compare" -> show_res (fun c -> "=" ^ show_cmp c) (compare_api (unhex a.(0)) (unhex a.(1)))
   | "cmp_value" -> "ok =" ^ show_cmp (cmp_value (parse_val a.(0)) (parse_val a.(1)))
   | "convert_to_comparable" -> show_res hex (convert_to_comparable_m (unhex a.(0)) prefix)
-  | "array_length" -> show_res (show_opt (fun n -> "=" ^ ZA.to_string (zt_of_n n))) (array_length_m (unhex a.(0)))
-  | "get_by_index" -> show_res (show_opt hex) (get_by_index_m (unhex a.(0)) (n_of_zt (ZA.of_string a.(1))))
-  | "get_by_name" -> show_res (show_opt hex) (get_by_name_m (unhex a.(0)) (unhex a.(1)) (a.(2) = "1"))
-  | "get_by_keypath" -> show_res (show_opt hex) (get_by_keypath_m (unhex a.(0)) (parse_keypaths a.(1)))
-  | "object_keys" -> show_res (show_opt hex) (object_keys_m (unhex a.(0)))
+  | "array_length" -> show_res (show_opt (fun n -> "=" ^ ZA.to_string (zt_of_n n))) (array_length_w (unhex a.(0)))
+  | "get_by_index" -> show_res (show_opt hex) (get_by_index_w (unhex a.(0)) (n_of_zt (ZA.of_string a.(1))))
+  | "get_by_name" -> show_res (show_opt hex) (get_by_name_w (unhex a.(0)) (unhex a.(1)) (a.(2) = "1"))
+  | "get_by_keypath" -> show_res (show_opt hex) (get_by_keypath_w (unhex a.(0)) (parse_keypaths a.(1)))
+  | "object_keys" -> show_res (show_opt hex) (object_keys_w (unhex a.(0)))
   | "object_each" ->
       show_res (show_opt (fun l -> "[" ^ String.concat "|" (List.map (fun (k, v) -> hexs k ^ ":" ^ hex v) l) ^ "]"))
-        (object_each_m (unhex a.(0)))
+        (object_each_w (unhex a.(0)))
   | "array_values" ->
-      show_res (show_opt (fun l -> "[" ^ String.concat "|" (List.map hex l) ^ "]")) (array_values_m (unhex a.(0)))
+      show_res (show_opt (fun l -> "[" ^ String.concat "|" (List.map hex l) ^ "]")) (array_values_w (unhex a.(0)))
   | "type_of" ->
       show_res (fun n -> "=" ^ (match int_of_n n with 0 -> "null" | 1 -> "boolean" | 2 -> "number" | 3 -> "string" | 4 -> "array" | _ -> "object"))
         (type_of_m (unhex a.(0)))
